@@ -180,8 +180,8 @@ def stat_str(st):
                                st.st_atime_ns, st.st_mtime_ns)
 
 
-def run_case(exe, idx, case):
-    d = os.path.join(ck.tmp, 'c%d' % idx)
+def run_case(exe, idx, case, errmode=None):
+    d = os.path.join(ck.tmp, 'c%d%s' % (idx, errmode or ''))
     os.mkdir(d)
     sock = None
     try:
@@ -278,9 +278,21 @@ def run_case(exe, idx, case):
         logf = os.path.join(ck.tmp, 'openlog%d' % idx)
         open(logf, 'w').close()
         env = {'LD_PRELOAD': PRELOAD[0], 'OPENLOG': logf} if PRELOAD[0] else {}
-        r = subprocess.run([exe] + opts + [name], cwd=d, env=env,
-                           stdin=subprocess.DEVNULL, stdout=subprocess.PIPE,
-                           stderr=subprocess.PIPE, timeout=60)
+        if errmode == 'full':            # every diagnostic write fails (ENOSPC)
+            with open('/dev/full', 'wb') as ef:
+                r = subprocess.run([exe] + opts + [name], cwd=d, env=env,
+                                   stdin=subprocess.DEVNULL, stdout=subprocess.PIPE,
+                                   stderr=ef, timeout=60)
+            r.stderr = b''
+        elif errmode == 'closed':        # no descriptor 2 at all (EBADF)
+            r = subprocess.run([exe] + opts + [name], cwd=d, env=env,
+                               stdin=subprocess.DEVNULL, stdout=subprocess.PIPE,
+                               preexec_fn=lambda: os.close(2), timeout=60)
+            r.stderr = b''
+        else:
+            r = subprocess.run([exe] + opts + [name], cwd=d, env=env,
+                               stdin=subprocess.DEVNULL, stdout=subprocess.PIPE,
+                               stderr=subprocess.PIPE, timeout=60)
         after = snap(d)
         with open(logf, 'rb') as f:
             creates = [tuple(l.split(b' ', 2)) for l in f.read().splitlines()]
@@ -534,6 +546,7 @@ def main():
         ck.finish({'evaluations': 0})
 
     nviol = [0]
+    skipped = []
 
     def violation(what, replay):
         nviol[0] += 1
@@ -604,6 +617,8 @@ def main():
             ck.broken.append('correspondence: bad admit reply %r' % rep2[i])
             continue
         dist['skip'][eff['skip']] = dist['skip'].get(eff['skip'], 0) + 1
+        if eff['skip'] != '-' and not eff['fatal']:
+            skipped.append(i)
         eff['outname_for_rm'] = res['out']
         if eff['fatal']:
             # fail(): the new output is unlinked by cleanup(), input stays
@@ -647,6 +662,27 @@ def main():
             samples.append({'case': c, 'world': res['world'], 'model': rep2[i],
                             'status': res['status'],
                             'after': sorted(res['after'].keys())})
+    # A skipped operand leaves the directory exactly as it was EVEN WHEN THE
+    # DIAGNOSTIC CANNOT BE DELIVERED (stderr closed, or every write to it
+    # failing): the fatal path taken inside the warning must not remove or
+    # touch anything either.  Cases with a pre-existing output first.
+    skipped.sort(key=lambda i: (not results[i]['pre'], i))
+    n_err = 0
+    for i in skipped[:(40 if ck.quick else 400)]:
+        for em in ('closed', 'full'):
+            res2 = run_case(exe, i, cases[i], errmode=em)
+            n_err += 1
+            if strip_atime(res2['after']) != strip_atime(res2['before']):
+                gone = sorted(set(res2['before']) - set(res2['after']))
+                violation('a skipped operand must leave everything untouched '
+                          'also when stderr is unusable (%s): %s %s; removed %s'
+                          % (em, ' '.join(cases[i]['opts']), cases[i]['name'], gone),
+                          {'case': cases[i], 'stderr': em,
+                           'preexisting_output': res2['pre'],
+                           'before': sorted(res2['before'].keys()),
+                           'after': sorted(res2['after'].keys()),
+                           'status': res2['status']})
+    ck.log('skipped operands re-run with unusable stderr: %d runs' % n_err)
     ck.log('distribution %s; documented-rule cases %d' % (dist, n_doc))
     ck.finish({
         'evaluations': len(cases),
@@ -655,6 +691,7 @@ def main():
                 'output) where option parsing succeeded',
         'distinct_cases': len(seen), 'distribution': dist,
         'documented_rule_cases': n_doc,
+        'unusable_stderr_runs': n_err,
         'disagreements': {'model': n_bad_model, 'documented': n_bad_doc,
                           'names': n_name_bad, 'violations_total': nviol[0]},
         'samples': samples, 'exhaustive': False,
